@@ -21,7 +21,9 @@ Reqs == { [type |-> 0, recipient |-> 0, dirin |-> FALSE, request |-> 5, value |-
           [type |-> 0, recipient |-> 0, dirin |-> TRUE,  request |-> 6, value |-> 256, index |-> 0, length |-> 8],
           [type |-> 1, recipient |-> 1, dirin |-> FALSE, request |-> 32, value |-> 0, index |-> 0, length |-> 7],
           [type |-> 1, recipient |-> 1, dirin |-> FALSE, request |-> 34, value |-> 3, index |-> 0, length |-> 0],
-          [type |-> 2, recipient |-> 0, dirin |-> TRUE,  request |-> 1, value |-> 0, index |-> 0, length |-> 4] }
+          [type |-> 2, recipient |-> 0, dirin |-> TRUE,  request |-> 1, value |-> 0, index |-> 0, length |-> 4],
+          [type |-> 0, recipient |-> 2, dirin |-> FALSE, request |-> 1, value |-> 0, index |-> 132, length |-> 0],
+          [type |-> 0, recipient |-> 2, dirin |-> FALSE, request |-> 1, value |-> 0, index |-> 4, length |-> 0] }
 
 CtlData == {<<>>, <<0>>, <<1>>, DevDesc, SubSeq(DevDesc, 1, 8)}
 
